@@ -105,6 +105,23 @@ def modeSum (ms : List Mode) : Option Mode :=
       some ⟨some earliest, sum (alignLoop earliest latest ms)⟩
     | _ => some ⟨none, sum (ms.map (·.segs))⟩
 
+/-- The loop of `modepb.MinAt(t, modes)`: `modes` is a Go map, so the loop visits the modes in an
+unspecified order; `ms` is the list of modes IN THE ORDER THE ITERATION DELIVERS THEM, the state is the
+current `(mode, magnitude)` (`none` = the Go `mode == nil`), `i` the position of the head of the list. -/
+def minAtLoop (t : Int) : Option (Nat × Int) → Nat → List Mode → Option (Nat × Int)
+  | cur, _, [] => cur
+  | cur, i, m :: ms =>
+    let mag := (modeMagnitudeAt t m).1
+    match cur with
+    | none => minAtLoop t (some (i, mag)) (i + 1) ms
+    | some (j, g) =>
+      if mag < g then minAtLoop t (some (i, mag)) (i + 1) ms
+      else minAtLoop t (some (j, g)) (i + 1) ms
+
+/-- `modepb.MinAt`: position (in iteration order) of the returned mode and the returned magnitude;
+`none` is the Go `(nil, 0)` for an empty map. -/
+def modeMinAt (t : Int) (ms : List Mode) : Option (Nat × Int) := minAtLoop t none 0 ms
+
 /-! ## Specification: a mode as a step function on the absolute timeline -/
 
 /-- The magnitude of mode `m` at instant `x`, for a mode that has a start time; a mode without a
